@@ -52,6 +52,12 @@ Section RunF.
     then ok (map (fun o => match o with Some A => te_aff_to_list F A | None => [] end) l ++ tail)
     else panic.
 
+  (* extended coordinates are consistent: T * Z = X * Y (a result with a stale T converts to the right affine point
+     and compares equal, but every LATER unified addition on it is wrong) *)
+  Definition te_tz (P : T * T * T * T) : bool :=
+    let '(x, y, t, z) := P in feqb F (fmul F t z) (fmul F x y).
+  Definition tzs (l : list (T * T * T * T)) : list Z := b2l (forallb te_tz l).
+
   Definition run_te (op : Z) (args : list (list Z)) : list (list Z) :=
     let a := el F (arg 2 args) 0 in
     let d := el F (arg 3 args) 0 in
@@ -61,20 +67,24 @@ Section RunF.
     match op with
     | 11 => ok ([fchar F; Z.of_nat (fdeg F)] :: fcoords F a :: fcoords F d :: field_probe)
     | 12 => let P := ext 4%nat in let Q := ext 5%nat in
-            te_out [o (te_add F a d P Q); o (te_sub F a d P Q)] [b2l (te_eqb F P Q)]
+            te_out [o (te_add F a d P Q); o (te_sub F a d P Q)]
+                   [b2l (te_eqb F P Q); tzs [te_add F a d P Q; te_sub F a d P Q]]
     | 13 => let P := ext 4%nat in let A := aff 5%nat in
             te_out [o (te_madd F a d P A); o (te_msub F a d P A); o (te_madd F a d P A)]
-                   [b2l (te_eqb F P (te_of_affine F A))]
+                   [b2l (te_eqb F P (te_of_affine F A)); tzs [te_madd F a d P A; te_msub F a d P A]]
     | 14 => let P := ext 4%nat in
             te_out [o (te_double F a P); o (te_neg F P); o P]
                    [b2l (te_is_zero F P);
-                    b2l (match o P with Some A => te_aff_on_curve F a d A | None => false end)]
+                    b2l (match o P with Some A => te_aff_on_curve F a d A | None => false end);
+                    tzs [te_double F a P; te_neg F P]]
     | 15 => let A := aff 4%nat in let B := aff 5%nat in
             te_out [o (te_aff_add_aff F a d A B); o (te_aff_sub_aff F a d A B); Some (te_aff_neg F A);
                     o (te_of_affine F A)]
-                   [b2l (te_aff_on_curve F a d A); b2l (te_aff_is_zero F A)]
+                   [b2l (te_aff_on_curve F a d A); b2l (te_aff_is_zero F A);
+                    tzs [te_aff_add_aff F a d A B; te_aff_sub_aff F a d A B; te_of_affine F A]]
     | 16 => ok (map (te_aff_to_list F) (te_normalize_batch F (map (te_ext_of_list F) (skipn 4 args))))
-    | 17 => te_out [o (te_sum F a d (map (te_aff_of_list F) (skipn 4 args)))] []
+    | 17 => te_out [o (te_sum F a d (map (te_aff_of_list F) (skipn 4 args)))]
+                   [tzs [te_sum F a d (map (te_aff_of_list F) (skipn 4 args))]]
     | 18 => ok [b2l (te_aff_on_curve F a d (aff 4%nat))]
     | _ => unsupported
     end.
